@@ -157,6 +157,11 @@ pub fn normalize(case: &HybCase) -> HybCase {
 }
 
 pub fn exec_c01(case: &HybCase) -> CaseReport {
+    exec_c01_as("C01", case)
+}
+
+/// The C01 oracle, with known findings looked up under `property` (C17 re-uses it on colliding key sets).
+pub fn exec_c01_as(property: &str, case: &HybCase) -> CaseReport {
     let case = &normalize(case);
     let trace = HybSim::run(case.cfg.clone(), &case.ops);
     if std::env::var("VERIF_DETCHECK").is_ok() {
@@ -217,7 +222,7 @@ pub fn exec_c01(case: &HybCase) -> CaseReport {
     cls!(f.fetch_ran, "origin-fetch-ran");
     cls!(f.disk_only_insert, "disk-only-insert");
     cls!(f.hang, "hang");
-    split_known("C01", j.failures, f.nontrivial, classes, f.shed)
+    split_known(property, j.failures, f.nontrivial, classes, f.shed)
 }
 
 /// First failure that is not a listed known finding becomes the case's failure; listed ones are tolerated (counted and
@@ -225,7 +230,8 @@ pub fn exec_c01(case: &HybCase) -> CaseReport {
 pub fn split_known(property: &str, failures: Vec<crate::common::Failure>, nontrivial: bool, classes: Vec<&'static str>, discarded: bool) -> CaseReport {
     static KNOWN: std::sync::OnceLock<crate::common::KnownFindings> = std::sync::OnceLock::new();
     let known = KNOWN.get_or_init(crate::common::KnownFindings::load);
-    let survey = std::env::var("VERIF_ALLSIG").is_ok();
+    // "ALL:<prop>" = the caller filters the failures itself (every failure is handed back as tolerated)
+    let survey = std::env::var("VERIF_ALLSIG").is_ok() || property.starts_with("ALL:");
     let mut failure = None;
     let mut tolerated = vec![];
     for f in failures {
